@@ -14,8 +14,13 @@ MC:      spec/Arshal.tla is the documented type-directed mapping between Go valu
          proves on the model: Unmarshal accepts Marshal(v), marshaling the decoded value gives the
          same JSON value, the decoded value equals v up to nil/empty (RoundTrip); the compact
          rendering reads back through the byte automaton (ParseRender).
+         The `format` options are part of the model: the encodings of RFC 4648 (one general
+         codec, proved to agree with the transcription of section 4 for Base 64 and to read back
+         what it writes: CodecLaws), byte strings as lists of numbers, non-finite floats,
+         emitnull / emitempty.
 Replay:  every (type, value, options) with the exact bytes the model predicts, on Marshal by
-         pointer and by value (types and values built with reflect).
+         pointer and by value (types and values built with reflect); for the format family also
+         every (type, old value, text) with the predicted Unmarshal result.
 TV:      (model) random types inside the modelled fragment (any nesting, up to 140 fields, tag
          options, names needing escapes), random values; TLC (Trace_ArshalModel) recomputes the
          exact bytes under 5 option sets with Deterministic.
@@ -37,6 +42,12 @@ def run(ctx):
     D = 1 if ctx.quick else 2
     types = af.within(af.HAND + af.random_types(ctx.seed, 150 if ctx.quick else 1500), D, 400 if ctx.quick else 3000, 10 ** 9)
     m = af.run_model(ctx, "marshal", types, {"m"}, "C04", D=D)
+    # the `format` options: every encoding of RFC 4648 for byte strings and byte arrays, lists of
+    # numbers, non-finite floats, nil slices and maps written as null or as empty - written, and
+    # read from well-formed and ill-formed texts (wrong alphabet, missing, excess and misplaced
+    # padding, line breaks)
+    af.run_model(ctx, "formats_m", af.FMTFAM, {"m"}, "C04", mopts=af.FMT_MOPTS, D=D)
+    af.run_model(ctx, "formats_u", af.within(af.FMTFAM, D, 400, 30000 if ctx.quick else 10 ** 6), {"u"}, "C04", uopts=af.FMT_UOPTS, D=D, laws=False)
     # random types, values and sizes far beyond the enumerated universe, validated by TLC against
     # the same model: the exact bytes Marshal returned
     nm = 8000 if ctx.quick else 400000
